@@ -1144,7 +1144,9 @@ class SSHProcess(SSHStreamSession, Generic[AnyStr]):
     def resume_feeding(self, datatype: DataType) -> None:
         """Resume feeding data from the channel"""
 
-        self._paused_write_streams.remove(datatype)
+        # A writer which was replaced while it had feeding paused may
+        # still ask to resume once it has written what it had queued
+        self._paused_write_streams.discard(datatype)
         self._maybe_resume_reading()
 
     def set_reader(self, reader: Optional[_ReaderProtocol],
@@ -1189,10 +1191,12 @@ class SSHProcess(SSHStreamSession, Generic[AnyStr]):
     def clear_writer(self, datatype: DataType) -> None:
         """Clear a writer forwarding data from the channel"""
 
+        # Remove the writer before resuming, so that data which was held
+        # back while feeding was paused isn't passed to a closed writer
+        del self._writers[datatype]
+
         if datatype in self._paused_write_streams:
             self.resume_feeding(datatype)
-
-        del self._writers[datatype]
 
     def close(self) -> None:
         """Shut down the process"""
